@@ -80,3 +80,56 @@ Definition return_event (s : TaskState) : string :=
   match find (fun p => TaskState_beq (fst p) s) return_arms with Some p => snd p | None => return_default end.
 Lemma return_map_match s code : ev_name (return_action s code) = return_event s.
 Proof. destruct s; reflexivity. Qed.
+
+(* Process::do_action: the rejections in front of Task::update.  The list and order of the checks come from the
+   source (gen/GenUpdate.v `do_action_checks`); what each check means is written here. *)
+Close Scope string_scope.
+Definition is_push (a : action) : bool := match a with APush _ => true | _ => false end.
+Definition chk_fails (c : chk) (e : eng) (i : nat) (a : action) (opts : vars) : bool :=
+  match c with
+  | CProcEnded => is_completed (pstate e)
+  | CNoTask => Nat.leb (List.length (tasks e)) i
+  | CPushStep => is_push a && negb (nkind_beq (kind e i) KStep)
+  | COtherAct => negb (is_push a) && negb (nkind_beq (kind e i) KAct)
+  | COutputs => n_outs (tnode e i) && negb (forallb (fun kv => vhas opts (fst kv)) (n_outputs (tnode e i)))
+  end.
+Definition rejected_early e i a opts : bool := existsb (fun c => chk_fails c e i a opts) do_action_checks.
+Definition arm_guard (a : action) : bool := match arm_of (ev_name a) with Some r => a_guard r | None => false end.
+Definition cut_action (a : action) : action :=
+  match a with AError _ => AError None | ABack _ => ABack None | APush _ => APush false | x => x end.
+
+Lemma arm_guard_cancel a : arm_guard a = negb (is_cancel a).
+Proof. destruct a; reflexivity. Qed.
+Lemma is_cancel_cut a : is_cancel (cut_action a) = is_cancel a.
+Proof. destruct a; reflexivity. Qed.
+
+(* the model rejects an action exactly when one of the source's checks fails or the arm's own guard does *)
+Lemma admission_none_iff e i a opts :
+  admission e i a opts = None <->
+  rejected_early e i a opts = true \/ (arm_guard a = true /\ is_completed (st e i) = true).
+Proof.
+  rewrite arm_guard_cancel. unfold rejected_early. cbv [do_action_checks existsb chk_fails]. unfold admission.
+  fold (is_push a).
+  destruct (is_completed (pstate e)); [cbn [orb]; split; auto|].
+  destruct (Nat.leb (List.length (tasks e)) i); [cbn [orb]; split; auto|].
+  destruct (is_push a && negb (nkind_beq (kind e i) KStep)); [cbn [orb]; split; auto|].
+  destruct (negb (is_push a) && negb (nkind_beq (kind e i) KAct)); [cbn [orb]; split; auto|].
+  destruct (n_outs (tnode e i) && negb (forallb (fun kv => vhas opts (fst kv)) (n_outputs (tnode e i)))) eqn:Eo; [cbn [orb]; split; auto|].
+  cbn [orb]. cbv zeta.
+  assert (Hc : is_cancel (if n_outs (tnode e i) then cut_action a else a) = is_cancel a) by (destruct (n_outs (tnode e i)); [apply is_cancel_cut | reflexivity]).
+  unfold cut_action in Hc. rewrite Hc.
+  destruct (negb (is_cancel a)) eqn:Ec; destruct (is_completed (st e i)) eqn:Es; cbn [andb]; split; intros H; try discriminate; auto;
+    try (destruct H as [H | [H1 H2]]; discriminate).
+Qed.
+
+(* an accepted action carries the options cut down to the declared outputs exactly when the source cuts them *)
+Lemma admission_cut e i a opts cv a' :
+  admission e i a opts = Some (cv, a') -> do_action_cuts_options = true -> n_outs (tnode e i) = true ->
+  map fst cv = map fst (n_outputs (tnode e i)) /\ a' = cut_action a.
+Proof.
+  unfold admission. destruct (is_completed (pstate e)); [discriminate|]. destruct (Nat.leb _ _); [discriminate|].
+  destruct (_ && negb (nkind_beq (kind e i) KStep)); [discriminate|]. destruct (negb _ && negb (nkind_beq (kind e i) KAct)); [discriminate|].
+  destruct (n_outs (tnode e i) && negb _); [discriminate|]. cbv zeta. intros H _ Ho. rewrite Ho in H.
+  match type of H with (if ?c then _ else _) = _ => destruct c; [discriminate|] end. inversion H; subst. split; [|reflexivity].
+  rewrite map_map. reflexivity.
+Qed.
